@@ -12,7 +12,7 @@ use linfa::traits::Transformer;
 use linfa::{Float, ParamGuard};
 use linfa::DatasetBase;
 use linfa_clustering::{Dbscan, Optics};
-use linfa_nn::distance::{Distance, L1Dist, L2Dist, LInfDist};
+use linfa_nn::distance::{Distance, L1Dist, L2Dist, LInfDist, LpDist};
 use linfa_nn::CommonNearestNeighbour;
 use lvmc_core::enumerate as en;
 use lvmc_core::refmath::{self, Metric};
@@ -34,7 +34,8 @@ struct Case {
     min_points: Vec<usize>,
     /// memory layout in which the SAME logical matrix is handed to the subject:
     /// "standard" | "col_major" (owned `.f()` array) | "transposed_view" (`.t()` of a feature-major
-    /// array) | "reversed_rows_view" | "every_second_row_view" (filler rows hold poison values)
+    /// array) | "reversed_rows_view" | "every_second_row_view" (filler rows hold poison values) |
+    /// "reversed_features_view" (`s![.., ..;-1]` of a feature-reversed copy: every row has stride -1)
     #[serde(default = "standard_layout")]
     layout: String,
     /// 0 = every distinct inter-point distance yields tolerances; k > 0 = only the k smallest
@@ -81,6 +82,7 @@ fn metric_of(s: &str) -> Metric {
         "L1" => Metric::L1,
         "L2" => Metric::L2,
         "Linf" => Metric::LInf,
+        "Lp3" => Metric::Lp(3.0),
         _ => panic!("unknown metric"),
     }
 }
@@ -175,6 +177,8 @@ fn run_case(case: &Case, only: Option<&At>, viols: &mut Vec<Found>) -> Counters 
         ("f64", "L1") => run_typed::<f64, _>(case, L1Dist, only, viols),
         ("f64", "L2") => run_typed::<f64, _>(case, L2Dist, only, viols),
         ("f64", "Linf") => run_typed::<f64, _>(case, LInfDist, only, viols),
+        ("f64", "Lp3") => run_typed::<f64, _>(case, LpDist(3.0f64), only, viols),
+        ("f32", "Lp3") => run_typed::<f32, _>(case, LpDist(3.0f32), only, viols),
         ("f32", "L1") => run_typed::<f32, _>(case, L1Dist, only, viols),
         ("f32", "L2") => run_typed::<f32, _>(case, L2Dist, only, viols),
         ("f32", "Linf") => run_typed::<f32, _>(case, LInfDist, only, viols),
@@ -246,6 +250,7 @@ fn run_typed<F: Float, D: Distance<F> + 'static>(case: &Case, dist_fn: D, only: 
     // the same logical matrix in the requested memory layout (`input`); `batch` stays the standard one
     let col_major: Array2<F> = Array2::from_shape_fn((n, d).f(), |(i, j)| batch[(i, j)]);
     let reversed: Array2<F> = Array2::from_shape_fn((n, d), |(i, j)| batch[(n - 1 - i, j)]);
+    let feature_reversed: Array2<F> = Array2::from_shape_fn((n, d), |(i, j)| batch[(i, d - 1 - j)]);
     let doubled: Array2<F> = Array2::from_shape_fn((2 * n, d), |(i, j)| if i % 2 == 0 { batch[(i / 2, j)] } else { F::from(1000.0 + (i * 7 + j) as f64).unwrap() });
     let nonstandard = case.layout != "standard";
     let feature_major: Array2<F> = Array2::from_shape_fn((d, n), |(j, i)| batch[(i, j)]);
@@ -255,6 +260,7 @@ fn run_typed<F: Float, D: Distance<F> + 'static>(case: &Case, dist_fn: D, only: 
         "transposed_view" => feature_major.t(),
         "reversed_rows_view" => reversed.slice(s![..;-1, ..]),
         "every_second_row_view" => doubled.slice(s![..;2, ..]),
+        "reversed_features_view" => feature_reversed.slice(s![.., ..;-1]),
         other => panic!("unknown layout {}", other),
     };
     assert!(input == batch, "layout construction must not change the logical matrix");
@@ -578,6 +584,7 @@ fn main() {
     ctx.assume("n = 1025 families use the tolerances derived from the 3 smallest distinct inter-point distances only (plus the OPTICS default infinite tolerance)");
     ctx.assume("memory layout: the 2-D / 3-D lattice families and the n=1025 grid are additionally passed as a column-major owned array, as the transposed view of a feature-major array, as a reversed-rows view of a reversed copy and as an every-second-row view of a larger array whose filler rows hold poison values (logically the same matrix, asserted); each run must satisfy the same oracle AND equal the standard-layout result bit for bit; only for the k-d tree on an input whose rows are not contiguous the documented panic ('views should be contiguous', rustdoc of linfa_nn::KdTree) is accepted instead - nothing else");
     ctx.assume("builder histories: for every 4-point (thorough: 3..5-point) subset of the 3x3 lattice, min_points 2..3, DBSCAN and OPTICS, distance types L2Dist and LpDist (real exponent 1, decoy 3), the constructors params(m) / params_with(m, decoy distance, decoy index) / params_with(m, real distance, real index) and EVERY sequence of <= 3 calls of the setters tolerance / nn_algo / dist_fn with real or decoy values (plus all 6 orders of the real writes after a full decoy prefix): the getters of the checked params must equal the final parameter set of a last-write-wins model and the result must be bit-identical to params_with(m, dist, index).tolerance(t) of that final set; neither algorithm has a min_points setter (constructor argument only)");
+    ctx.assume("upstream routing (linfa-nn): point sets with 4, 5, 6, 7 and 9 features whose deciding coordinate cycles through every feature index, metrics L1 / L2 / Linf / Lp(3) there and on the 0.125-scaled 3x3 lattice; 0.125- and 0.1-scaled copies of the > 16-point families (tolerances below 1, every index has more than one leaf) and of the n=1025 grid; a reversed FEATURE axis in the layout list (rows of stride -1: the k-d tree's documented panic is accepted there too)");
     ctx.assume("min_points >= 2 and tolerance > 0 only (the parameter guards are C04's subject); finite coordinates");
 
     // ---------------- enumerate cases ----------------
@@ -595,6 +602,7 @@ fn main() {
     const F64: &[&str] = &["f64"];
     const ALL_METRICS: &[&str] = &["L1", "L2", "Linf"];
     const L2_ONLY: &[&str] = &["L2"];
+    const FOUR_METRICS: &[&str] = &["L1", "L2", "Linf", "Lp3"];
     const MP_SMALL: &[usize] = &[2, 3, 4];
     const MP_LARGE: &[usize] = &[2, 3, 4, 5];
     let mut sets: Vec<PointSet> = Vec::new();
@@ -682,6 +690,49 @@ fn main() {
             add("1d_bridge", reversed, 1, true, F64, L2_ONLY, MP_LARGE);
         }
     }
+    // H: 4, 5, 6, 7 and 9 features (distance kernels with chunked fast paths): a 1-D multiset laid along
+    // feature j (j cycles through EVERY feature index), with smaller dyadic offsets in two other features so
+    // that L1 / L2 / Lp see several coordinates while the Chebyshev distance is decided by feature j alone
+    {
+        let vals = [0.0, 1.0, 2.0, 4.0];
+        for &d in &[4usize, 5, 6, 7, 9] {
+            for j in 0..d {
+                for ms in en::multisets_upto(4, 4, ctx.pick(4, 5), 5) {
+                    let pts: Vec<Vec<f64>> = ms
+                        .iter()
+                        .enumerate()
+                        .map(|(i, &v)| {
+                            let mut p = vec![0.0; d];
+                            p[(j + 1) % d] = 0.5 * (i % 2) as f64;
+                            p[(j + 2) % d] = 0.25 * (i % 3) as f64;
+                            p[j] = vals[v];
+                            p
+                        })
+                        .collect();
+                    add("embedded_in_4_5_6_7_9_features", pts, d, true, if thorough { BOTH } else { F64 }, FOUR_METRICS, MP_SMALL);
+                }
+            }
+        }
+    }
+    // I: sub-unit coordinate scales (squared vs plain distance confusions are invisible at scales >= 1):
+    // dyadic scale 0.125 keeps the arithmetic exact (class B stays decidable), scale 0.1 does not
+    let scale_pts = |pts: &[Vec<f64>], s: f64| -> Vec<Vec<f64>> { pts.iter().map(|p| p.iter().map(|&x| x * s).collect()).collect() };
+    for ss in en::subsets_upto(9, 1, ctx.pick(5, 6)) {
+        let p: Vec<Vec<f64>> = ss.iter().map(|&i| ints(&lat[i])).collect();
+        add("lattice3x3_x0.125", scale_pts(&p, 0.125), 2, true, F64, FOUR_METRICS, MP_SMALL);
+    }
+    for removed in en::subsets_upto(20, 0, ctx.pick(1, 2)) {
+        let keep: Vec<usize> = (0..20).filter(|i| !removed.contains(i)).collect();
+        let g: Vec<Vec<f64>> = keep.iter().map(|&i| big[i].clone()).collect();
+        let l: Vec<Vec<f64>> = keep.iter().map(|&i| vec![i as f64]).collect();
+        add("lattice5x4_minus_x0.125", scale_pts(&g, 0.125), 2, true, F64, ALL_METRICS, MP_LARGE);
+        add("line20_minus_x0.125", scale_pts(&l, 0.125), 1, true, F64, ALL_METRICS, MP_LARGE);
+        add("lattice5x4_minus_x0.1", scale_pts(&g, 0.1), 2, false, F64, ALL_METRICS, MP_LARGE);
+    }
+    for removed in en::subsets_upto(40, 0, 1) {
+        let l: Vec<Vec<f64>> = (0..40).filter(|i| !removed.contains(i)).map(|i| vec![i as f64 * 0.1]).collect();
+        add("line40_minus_x0.1", l, 1, false, F64, ALL_METRICS, MP_LARGE);
+    }
     // F: zero features, empty matrices
     for n in 0..=5usize {
         add("zero_features", vec![vec![]; n], 0, true, BOTH, ALL_METRICS, MP_SMALL);
@@ -697,10 +748,10 @@ fn main() {
             for m in ps.metrics {
                 // quick tier: the (largest) lattice3x3 family gets its extra layouts in f64 only and no dataset form
                 let slim = !thorough && ps.family == "lattice3x3";
-                let layouts: &[&str] = if ps.layouts && !(slim && *f == "f32") { &["standard", "col_major", "transposed_view", "reversed_rows_view", "every_second_row_view"] } else { &["standard"] };
+                let layouts: &[&str] = if ps.layouts && !(slim && *f == "f32") { &["standard", "col_major", "transposed_view", "reversed_rows_view", "every_second_row_view", "reversed_features_view"] } else { &["standard"] };
                 for l in layouts {
                     *per_family.entry(if *l == "standard" { ps.family.to_string() } else { format!("{}@{}", ps.family, l) }).or_default() += 1;
-                    cases.push(Case { family: ps.family.into(), points: ps.points.clone(), dim: ps.dim, float: (*f).into(), metric: (*m).into(), integer_coords: ps.integer, min_points: ps.min_points.to_vec(), layout: (*l).into(), max_distinct: 0, dataset_form: ps.layouts && !slim });
+                    cases.push(Case { family: ps.family.into(), points: ps.points.clone(), dim: ps.dim, float: (*f).into(), metric: (*m).into(), integer_coords: ps.integer, min_points: ps.min_points.to_vec(), layout: (*l).into(), max_distinct: 0, dataset_form: (ps.layouts && !slim) || ps.family == "1d_multiset" });
                 }
             }
         }
@@ -729,12 +780,14 @@ fn main() {
         })
         .collect();
     let mut big: Vec<(&'static str, &Vec<Vec<f64>>, &'static str, &'static str, &'static str)> = Vec::new(); // family, points, float, metric, layout
-    for l in ctx.pick(&["standard", "col_major"][..], &["standard", "col_major", "transposed_view", "reversed_rows_view", "every_second_row_view"][..]) {
+    for l in ctx.pick(&["standard", "col_major"][..], &["standard", "col_major", "transposed_view", "reversed_rows_view", "every_second_row_view", "reversed_features_view"][..]) {
         for m in ctx.pick(L2_ONLY, ALL_METRICS) {
             big.push(("grid41x25_shifted_n1025", &grid_big, "f64", m, l));
         }
     }
     big.push(("grid41x25_shifted_n1025", &grid_big, "f32", "L2", "standard"));
+    let grid_big_small: Vec<Vec<f64>> = grid_big.iter().map(|p| p.iter().map(|&x| x * 0.125).collect()).collect();
+    big.push(("grid41x25_shifted_n1025_x0.125", &grid_big_small, "f64", "L2", "standard"));
     if ctx.thorough() {
         big.push(("grid41x25_shifted_n1025", &grid_big, "f32", "L2", "transposed_view"));
         big.push(("pattern5_x205_n1025", &replicated, "f64", "L2", "standard"));
